@@ -31,9 +31,15 @@ import (
 
 type gRPCServer struct {
 	server *grpc.Server
+
+	mu    sync.Mutex
+	conns map[net.Conn]struct{}
 }
 
 func (s *gRPCServer) Close() error {
+	// grpc's Stop waits for connections which are still in the
+	// HTTP/2 (or TLS) handshake. Closing them makes it return at once.
+	s.closeConns()
 	s.server.Stop()
 	return nil
 }
@@ -49,6 +55,10 @@ func (s *gRPCServer) Shutdown(ctx context.Context) error {
 	select {
 	case <-done:
 	case <-ctx.Done():
+		// Both GracefulStop and Stop wait for accepted connections which
+		// have not completed their handshake yet (up to grpc's connection
+		// timeout of 120s). Close all connections so that neither blocks.
+		s.closeConns()
 		s.server.Stop()
 		<-done
 	}
@@ -56,7 +66,51 @@ func (s *gRPCServer) Shutdown(ctx context.Context) error {
 }
 
 func (s *gRPCServer) Serve(lis net.Listener) error {
-	return s.server.Serve(lis)
+	return s.server.Serve(&grpcTrackingListener{Listener: lis, srv: s})
+}
+
+func (s *gRPCServer) closeConns() {
+	s.mu.Lock()
+	conns := s.conns
+	s.conns = nil
+	s.mu.Unlock()
+	for c := range conns {
+		c.Close()
+	}
+}
+
+// grpcTrackingListener remembers the accepted connections of a
+// gRPC server so that they can be closed on shutdown.
+type grpcTrackingListener struct {
+	net.Listener
+	srv *gRPCServer
+}
+
+func (l *grpcTrackingListener) Accept() (net.Conn, error) {
+	c, err := l.Listener.Accept()
+	if err != nil {
+		return nil, err
+	}
+	tc := &grpcTrackedConn{Conn: c, srv: l.srv}
+	l.srv.mu.Lock()
+	if l.srv.conns == nil {
+		l.srv.conns = map[net.Conn]struct{}{}
+	}
+	l.srv.conns[tc] = struct{}{}
+	l.srv.mu.Unlock()
+	return tc, nil
+}
+
+type grpcTrackedConn struct {
+	net.Conn
+	srv *gRPCServer
+}
+
+func (c *grpcTrackedConn) Close() error {
+	c.srv.mu.Lock()
+	delete(c.srv.conns, c)
+	c.srv.mu.Unlock()
+	return c.Conn.Close()
 }
 
 func GetGRPCDirector(tlscfg *tls.Config, cfg *config.Config) func(ctx context.Context, fullMethodName string) (context.Context, *grpc.ClientConn, error) {
